@@ -153,7 +153,45 @@ type c19Case struct {
 	IP        string `json:"ip"`
 }
 
+// c19Expiry: weighted answers cached for one second, asked before and after they expire (miss, hit, expired, hit):
+// every one of these queries moves exactly one of the hit/missed/expired counters.
+func c19Expiry(r *report.Run) {
+	w, names := gen.GenWeighted(rand.New(rand.NewSource(r.Seed*97 + 3)))
+	servers, err := openAll(w.Text(), harness.ServerOpts{Cache: true, WRSTimeout: 1})
+	if err != nil {
+		r.Violation("", "weighted file rejected: "+err.Error(), nil)
+		return
+	}
+	defer servers.close()
+	ask := func(phase string) {
+		for _, sv := range servers.srv {
+			before := sv.Stats.Snapshot()
+			for i, n := range names {
+				if i >= 6 || n.Wild {
+					continue
+				}
+				q := harness.MakeQuery(gen.Presentation(n.Name), dns.TypeA, uint16(i))
+				if msg := c19CheckQuery(sv, q, "203.0.113.9", false, true, 1); msg != "" {
+					r.Violation("", fmt.Sprintf("%s, entries cached for 1 s, %s: %s; query %s A", sv.B.Name, phase, msg, n.Name), map[string]string{"phase": phase, "name": n.Name})
+				}
+				r.Count("a_expiry_queries", 1)
+			}
+			d := c19Delta(before, sv.Stats.Snapshot())
+			for _, k := range []string{"DNS_cache.hit", "DNS_cache.missed", "DNS_cache.expired"} {
+				r.Count("a_expiry_"+phase+"_"+k, d[k])
+			}
+		}
+	}
+	ask("first")
+	ask("again")
+	time.Sleep(2100 * time.Millisecond)
+	ask("after-expiry")
+	ask("again-after-expiry")
+	r.Eval(1)
+}
+
 func c19Handler(r *report.Run) {
+	c19Expiry(r)
 	nworlds := r.Pick(12, 300)
 	for i := 0; i < nworlds; i++ {
 		seed := r.Seed*41000041 + int64(i)
@@ -451,7 +489,7 @@ func c19CountersWorker(args []string) int {
 }
 
 func runC19(r *report.Run) {
-	r.SetRule("(a) generated and hostile queries on generated databases of every layout (CDB, RocksDB v1/v2; cache on and off) with recording implementations of the public Stats and Logger interfaces: per query the counter deltas must be DNS_queries +1, its type counter +1, exactly one location-class counter and one of cache hit/missed/expired once the location stage is passed, and nxdomain/refused/nodata/badvers/notauthoritative exactly as the message actually written dictates; Log called exactly once with a message equal to the one written for every composed response, never without a write. (b) 16 goroutines x 1e5 increments on metrics.Stats with a concurrent exporter, sums exact, under the race detector; plus 1 500 rounds of 8 goroutines adding the first samples of a fresh key at the same moment, all of which must be exported. (c) real sliding windows (verif constructor, lifetime 3 s, real clock) fed scripted Add schedules with live and expired samples present at the same cleaner tick, unique non-zero values; each observation classifies every sample from measured monotonic timestamps as must-be-reported / must-be-gone / either, observations with an 'either' sample are skipped; exported min/max/avg must be computed from exactly the must-set. non-trivial = checked query / conclusive observation; distinct by case")
+	r.SetRule("(a) generated and hostile queries on generated databases of every layout (CDB, RocksDB v1/v2; cache on and off) with recording implementations of the public Stats and Logger interfaces: per query the counter deltas must be DNS_queries +1, its type counter +1, exactly one location-class counter and one of cache hit/missed/expired once the location stage is passed, and nxdomain/refused/nodata/badvers/notauthoritative exactly as the message actually written dictates; Log called exactly once with a message equal to the one written for every composed response, never without a write. plus weighted answers cached for one second and asked before and after they expire (miss, hit, expired, hit - exactly one of the three cache counters per query); (b) 16 goroutines x 1e5 increments on metrics.Stats with a concurrent exporter, sums exact, under the race detector; plus 1 500 rounds of 8 goroutines adding the first samples of a fresh key at the same moment, all of which must be exported. (c) real sliding windows (verif constructor, lifetime 3 s, real clock) fed scripted Add schedules with live and expired samples present at the same cleaner tick, unique non-zero values; each observation classifies every sample from measured monotonic timestamps as must-be-reported / must-be-gone / either, observations with an 'either' sample are skipped; exported min/max/avg must be computed from exactly the must-set. non-trivial = checked query / conclusive observation; distinct by case")
 	r.Assume("(c) uses the real clock because the code has no clock seam; tick 1 s plus 1 s slack before a sample must be gone; skipped observations are counted, never decided")
 	var wg sync.WaitGroup
 	wg.Add(1)
